@@ -10,7 +10,7 @@
    Where a statement needs the digest to be collision-free this is an explicit
    premise of that clause. *)
 From Coq Require Import Sorting.Permutation.
-From Oras Require Import Base.Prelude Base.Regex Base.StrCheck Generated.GC19 Model.Pack Proofs.Pack Proofs.PackTime Proofs.PackJson Proofs.PackTie.
+From Oras Require Import Base.Prelude Base.Regex Base.StrCheck Generated.GC19 Model.Pack Proofs.Pack Proofs.PackTime Proofs.PackJson Proofs.PackTie Model.PackEnc Proofs.PackEnc.
 
 (* The media-type check accepts exactly RFC 6838 section 4.2:
    restricted-name "/" restricted-name, each 1..127 characters. *)
@@ -316,7 +316,8 @@ Print Assumptions C19_deterministic.
 Theorem C19_annotation_order_independent :
   forall (marshal : manifest -> str) (H : str -> str), H empty_json = empty_json_digest ->
   (forall k c l sj a ann ann',
-      Permutation ann ann' -> marshal (mkManifest k c l sj a ann) = marshal (mkManifest k c l sj a ann')) ->
+      NoDup (map fst ann) -> Permutation ann ann' ->
+      marshal (mkManifest k c l sj a ann) = marshal (mkManifest k c l sj a ann')) ->
   forall f at_ o o' v tc1 fa1 s1 now1 s1' d1 m1 tc2 fa2 s2 now2 s2' d2 m2,
     NoDup (map fst (o_ann o)) -> Permutation (o_ann o) (o_ann o') -> same_but_ann o o' ->
     ann_get (created_key f) (o_ann o) = Some v ->
@@ -327,6 +328,31 @@ Theorem C19_annotation_order_independent :
     m_config m1 = m_config m2 /\ m_layers m1 = m_layers m2 /\ m_subject m1 = m_subject m2 /\ m_at m1 = m_at m2.
 Proof. exact deterministic_perm. Qed.
 Print Assumptions C19_annotation_order_independent.
+
+(* json.Marshal itself is modelled (Model/PackEnc.v json_manifest: struct field order, omitempty,
+   string escaping, sorted map keys, base64; compared byte for byte with the stored manifest on every
+   run).  For it the order independence is a theorem, not a premise: the marshalled bytes, hence digest
+   and size, do not depend on the order in which a map's entries are listed ... *)
+Theorem C19_json_marshal_order_independent :
+  forall k c l sj a ann ann',
+    NoDup (map fst ann) -> Permutation ann ann' ->
+    json_manifest (mkManifest k c l sj a ann) = json_manifest (mkManifest k c l sj a ann').
+Proof. exact json_manifest_perm. Qed.
+Print Assumptions C19_json_marshal_order_independent.
+
+(* ... so Pack with the real marshalling is independent of the order of the manifest annotations. *)
+Theorem C19_annotation_order_independent_json :
+  forall (H : str -> str), H empty_json = empty_json_digest ->
+  forall f at_ o o' v tc1 fa1 s1 now1 s1' d1 m1 tc2 fa2 s2 now2 s2' d2 m2,
+    NoDup (map fst (o_ann o)) -> Permutation (o_ann o) (o_ann o') -> same_but_ann o o' ->
+    ann_get (created_key f) (o_ann o) = Some v ->
+    pack json_manifest H f tc1 fa1 s1 at_ o now1 = (s1', Ok d1 m1) ->
+    pack json_manifest H f tc2 fa2 s2 at_ o' now2 = (s2', Ok d2 m2) ->
+    d_dg d1 = d_dg d2 /\ d_sz d1 = d_sz d2 /\ d_mt d1 = d_mt d2 /\ d_at d1 = d_at d2 /\
+    d_extra d1 = d_extra d2 /\ Permutation (d_ann d1) (d_ann d2) /\
+    json_manifest m1 = json_manifest m2.
+Proof. exact deterministic_perm_json. Qed.
+Print Assumptions C19_annotation_order_independent_json.
 
 (* ---------- the hypotheses are satisfiable, the statements are not vacuous ---------- *)
 
@@ -344,7 +370,7 @@ Proof. exact lossy_H_injective. Qed.
 (* a marshal that satisfies marshal_perm (it ignores the annotations' order: it drops them) *)
 Example toy_marshal_perm_satisfiable :
   let mar := fun m : manifest => b "manifest:" ++ m_at m in
-  forall k c l sj a ann ann', Permutation ann ann' ->
+  forall k c l sj a ann ann', NoDup (map fst ann) -> Permutation ann ann' ->
     mar (mkManifest k c l sj a ann) = mar (mkManifest k c l sj a ann').
 Proof. reflexivity. Qed.
 
